@@ -32,7 +32,7 @@ Theorem tolerance_configured :
   (forall e, gen_xtol e == e) /\ (forall e r, gen_velErr e r == e * r) /\
   gen_velErr_offEq_bounded_below = true /\
   gen_rootfinder_method = "brentq"%string /\
-  gen_rootfinder_bracket = ["wallVelocityMin"; "wallVelocityMax"]%string /\
+  gen_rootfinder_bracket = [0%nat; 1%nat] /\
   gen_rootfinder_extra_keywords = [] /\
   gen_wrapper_calls_wallPressure_once_at_its_argument = true.
 Proof.
@@ -40,16 +40,6 @@ Proof.
   repeat split; vm_compute; reflexivity.
 Qed.
 Print Assumptions tolerance_configured.
-
-Definition atolFactor : Q := 1 # 400.
-Definition endTol : Q := 1 # 10000000000.
-
-(** any configuration, with the literals and expressions of solveWall taken from the source *)
-Definition cfg (b : config) : config :=
-  mkConfig (c_errTol b) (c_pressRelErrTol b) (c_vJ b) (c_vLTE b)
-           (c_TMinLow b) (c_TMaxLow b) (c_TMinHigh b) (c_TMaxHigh b)
-           (c_widthLo b) (c_widthHi b) (c_offLo b) (c_offHi b)
-           gen_atol0 atolFactor endTol (gen_xtol (c_errTol b)) (gen_velErr (c_errTol b)).
 
 Theorem pressure_tolerance :
   0 < gen_atol0 /\ gen_atol0_before_first_eval = true /\
